@@ -12,6 +12,15 @@ import PcbV.Model.SessionApi
     lst <n|0|1> <dims|-> <rank> <data>
         OPTION BASE (n: none), DIM A(dims) (-: none), A() = data; reply `<ok|err e> <to_list>`
         data: values `,`  rows `/`  planes `|`, an empty (sub)list is `e`
+    hist <op>;<op>;…              one history over several arrays (names are numbers), one reply token per op:
+        ob0 | ob1                 OPTION BASE                     → ok | e<n>
+        d:<n>:<dims>              DIM                             → ok | e<n>
+        e:<n>,<n>…                ERASE                           → ok | e<n>
+        c                         CLEAR / NEW                     → ok
+        s<rank>:<n>:<data>        set_variable('<n>%()', data)    → ok | e<n>
+        g:<n>                     get_variable('<n>%()')          → g<rank>=<data> | gmissing
+        r:<n>:<idx>               evaluate('<n>%(idx)')           → v<int> | e<n>   (creates the array if need be)
+        w:<n>:<idx>:<v>           <n>%(idx)=v                     → ok | e<n>
 -/
 namespace PcbV.Drv.C43
 open PcbV PcbV.SessionApi PcbV.Mbf PcbV.Arrays
@@ -95,7 +104,68 @@ def setup (base dims : String) : Option State :=
 def showLst (r : State × Option Nat) : String :=
   (match r.2 with | none => "ok" | some e => "err " ++ toString e) ++ " " ++ showPyList (toList r.1 1)
 
+def showErr : Option Nat → String
+  | none => "ok"
+  | some e => "e" ++ toString e
+
+def showG : PyList → String
+  | .missing => "gmissing"
+  | .l1 l => "g1=" ++ showRow l
+  | .l2 l => "g2=" ++ showRows l
+  | .l3 l => "g3=" ++ showPlanes l
+  | .other => "gother"
+
+def parseIdx (s : String) : Option (List Int) := (s.splitOn ",").mapM String.toInt?
+
+/-- one step of a history: new state and the reply token (`bad` for an unparsable op) -/
+def histStep (st : State) (op : String) : State × String :=
+  match op.splitOn ":" with
+  | ["ob0"] => let r := optionBase st 0; (r.1, showErr r.2)
+  | ["ob1"] => let r := optionBase st 1; (r.1, showErr r.2)
+  | ["c"] => (clearAll st, "ok")
+  | ["d", n, dims] =>
+    match n.toNat?, parseIdx dims with
+    | some n, some d => let r := dim st [(n, d)]; (r.1, showErr r.2)
+    | _, _ => (st, "bad")
+  | ["e", names] =>
+    match (names.splitOn ",").mapM String.toNat? with
+    | some l => let r := erase st l; (r.1, showErr r.2)
+    | none => (st, "bad")
+  | ["s1", n, data] =>
+    match n.toNat?, parseRow data with
+    | some n, some l => let r := fromList1 st n l; (r.1, showErr r.2)
+    | _, _ => (st, "bad")
+  | ["s2", n, data] =>
+    match n.toNat?, parseRows data with
+    | some n, some l => let r := fromList2 st n l; (r.1, showErr r.2)
+    | _, _ => (st, "bad")
+  | ["s3", n, data] =>
+    match n.toNat?, parsePlanes data with
+    | some n, some l => let r := fromList3 st n l; (r.1, showErr r.2)
+    | _, _ => (st, "bad")
+  | ["g", n] =>
+    match n.toNat? with
+    | some n => (st, showG (toList st n))
+    | none => (st, "bad")
+  | ["r", n, idx] =>
+    match n.toNat?, parseIdx idx with
+    | some n, some i =>
+      match Arrays.get st n i with
+      | (st', .ok v) => (st', "v" ++ toString v)
+      | (st', .error e) => (st', "e" ++ toString e)
+    | _, _ => (st, "bad")
+  | ["w", n, idx, v] =>
+    match n.toNat?, parseIdx idx, v.toInt? with
+    | some n, some i, some v => let r := Arrays.set st n i v; (r.1, showErr r.2)
+    | _, _, _ => (st, "bad")
+  | _ => (st, "bad")
+
+def histRun (st : State) : List String → List String
+  | [] => []
+  | op :: ops => let r := histStep st op; r.2 :: histRun r.1 ops
+
 def handle : List String → String
+  | ["hist", ops] => "ok " ++ ";".intercalate (histRun State.init (ops.splitOn ";"))
   | ["int", n] =>
     match n.toInt? with
     | some n => showR toString ((setInt n).map getInt)
